@@ -41,6 +41,7 @@ var (
 	errOverflow          = errors.New("overflow")
 	errNotEnoughData     = errors.New("not enough data")
 	errNaN               = errors.New("invalid value NaN")
+	errInvalidSampling   = errors.New("invalid sample rate")
 )
 
 var escapedNewline = []byte("\\n")
@@ -464,6 +465,12 @@ func lexMetricAttribute(l *Lexer) stateFn {
 		v, err := strconv.ParseFloat(string(input), 64)
 		if err != nil {
 			l.err = err
+			return nil
+		}
+		// A sample rate is a probability-like divisor: zero, negative, NaN and infinite
+		// rates would turn counters and timer counts into Inf/NaN or flip their sign.
+		if !(v > 0) || math.IsInf(v, 1) {
+			l.err = errInvalidSampling
 			return nil
 		}
 		l.sampling = v
